@@ -46,19 +46,23 @@ CHECKS = {
              "'@', HOST with get_host_delimiter_location and parse_host, PORT with parse_port's trailing check, PATH_START, "
              "PATH, OPAQUE_PATH, FILE, FILE_SLASH, FILE_HOST, QUERY, fragment, fast path in front) and it answers exactly "
              "Spec.parse's record, failure for failure and field for field, whatever the scheme (1450 lines), under the "
-             "bracket side condition below; ada's perfect-hash "
+             "bracket side condition below; parser_with_base_partial - the same for parse_url_impl<ada::url>(input, &base) on every "
+             "base object holding a record with the invariants of C19: NO_SCHEME, SPECIAL_RELATIVE_OR_AUTHORITY, RELATIVE_SCHEME, "
+             "RELATIVE_SLASH, FILE / FILE_SLASH with a file base (inheritance, shorten_path on the serialised base path, drive-letter "
+             "quirks) answer Spec.parse input (some base) (Lemmas/ParseBase.lean, 750 lines); ada's perfect-hash "
              "scheme lookup equals list lookup. L1: the state-machine model is run against ada::parse<ada::url> on generated "
-             "inputs with the real IDNA answers as hints; the "
+             "inputs and (input, base) pairs (the model gets the field values of the real base object) with the real IDNA "
+             "answers as hints; the "
              "Lean path builder is run against the real function (and both shorten_path overloads against each other) on "
              "generated calls. Both URL types are compared with the Spec on generated (input, base) pairs: href, all getters, "
              "origin, opaque flag.",
         design_ref="DESIGN.md §5 C01, §11.3",
-        note="partial: parse_url_impl<ada::url> without a base is modelled and proved equal to Spec.parse for every input, "
-             "under one side condition (no '/', '?', '\\\\' between a '[' and the next ']' behind the credentials - there "
+        note="partial: parse_url_impl<ada::url>, without and with a base, is modelled and proved equal to Spec.parse for "
+             "every input (and every base record with the invariants), under one side condition (no '/', '?', '\\\\' between a '[' and the next ']' behind the credentials - there "
              "get_host_delimiter_location and the Standard's host state stop at different places and both fail later; "
              "bracket_condition_plain: any input without '[' satisfies it; file URLs are free of it) and with "
              "ada::idna::to_ascii as a parameter; "
-             "every input with a base and the url_aggregator instantiation of the state machine are compared "
+             "the url_aggregator instantiation of the state machine are compared "
              "with the Spec, not modelled (their building blocks - path builder, scheme lookup, fast path, can_parse "
              "scanner in C08, parse_host and the IP kernels in C10, the aggregator's editors in C07 - are). Spec.parse is a hand transcription of the Standard (trusted, validated by WPT). "
              "IDNA answers inside the Spec come from ada::idna (C06)."),
